@@ -210,12 +210,15 @@ func c02Decos(base *XElem, thorough bool) []Deco {
 
 func c02Cfgs(maxDev int) []Cfg {
 	var out []Cfg
-	for _, ap := range []string{"-", "@"} {
+	for _, ap := range []string{"-", "@", "A_"} {
 		for _, kp := range []string{"#", "_"} {
 			for bits := 0; bits < 64; bits++ {
 				dev := 0
 				if ap != "-" {
 					dev++
+				}
+				if ap == "A_" && (bits&1 == 0 || bits&^(1|2|32) != 0 || kp != "#") {
+					continue // the prefix with a capital letter: with key folding on, and snake case / cast at most
 				}
 				if kp != "#" {
 					dev++
@@ -260,7 +263,7 @@ func c02Cfgs(maxDev int) []Cfg {
 
 func c02Run(c *Ctx) {
 	mustBeDefault(c)
-	c.S.Rule = "cases = (document, configuration, encoder): documents are all element trees with <= N elements (names over {a,b}) with <= 1 decoration (quick: trees with N-1 elements meet every second (configuration, document, encoder) triple and all configurations with <= 2 deviations, trees with N elements the latter only) (attribute / text at every position / renamed element; values with all five XML special characters, blanks, tab/newline, non-ASCII, number and boolean look-alikes, an already-escaped sequence, ]]>) under all 512 symmetric configurations (attribute prefix {-,@} x key prefix {#,_} x lower x snake x simple-as-map x keep-spaces x escaping {encoder-side, decoder-side, both requested in either call order, both requested through the no-argument setter forms, every other boolean setter called with its default value afterwards} x cast; configurations with <= 1 deviation also reached through the no-argument (toggle) setter forms), and with 2 decorations (quick: over the first 9 values) under configurations with <= 2 option deviations; encoders Xml and XmlIndent with (prefix,indent) in {(\"\",\"  \"),(\"\",\"\\t\"),(\" \",\" \")}. Oracle: re-encoded text well formed (single root), decode(encode(m1)) == m1, and the reference decode of the re-encoded text's parse equals m1. Ascending and descending map order; E-choice bound 1 over map order on the small documents. non-trivial = round trip executed."
+	c.S.Rule = "cases = (document, configuration, encoder): documents are all element trees with <= N elements (names over {a,b}) with <= 1 decoration (quick: trees with N-1 elements meet every second (configuration, document, encoder) triple and all configurations with <= 2 deviations, trees with N elements the latter only) (attribute / text at every position / renamed element; values with all five XML special characters, blanks, tab/newline, non-ASCII, number and boolean look-alikes, an already-escaped sequence, ]]>) under all 512 symmetric configurations (attribute prefix {-,@} [and 'A_', a prefix with a capital letter, under key folding] x key prefix {#,_} x lower x snake x simple-as-map x keep-spaces x escaping {encoder-side, decoder-side, both requested in either call order, both requested through the no-argument setter forms, every other boolean setter called with its default value afterwards} x cast; configurations with <= 1 deviation also reached through the no-argument (toggle) setter forms), and with 2 decorations (quick: over the first 9 values) under configurations with <= 2 option deviations; encoders Xml and XmlIndent with (prefix,indent) in {(\"\",\"  \"),(\"\",\"\\t\"),(\" \",\" \")}. Oracle: re-encoded text well formed (single root), decode(encode(m1)) == m1, and the reference decode of the re-encoded text's parse equals m1. Ascending and descending map order; E-choice bound 1 over map order on the small documents. non-trivial = round trip executed."
 	c.S.Assumptions = []string{"element names do not begin with the attribute prefix; attribute prefixes non-empty (as the property states)", "integer casting and tag sequence numbers excluded (documented as asymmetric)"}
 	maxA, maxB, ech := 4, 3, 2
 	if c.Thorough {
